@@ -76,7 +76,7 @@ func (m *mSync) complete() {
 func VerifC09FullSync(h *verifh.H) {
 	lease := time.Hour
 	if !h.Symbolic() {
-		lease = 300 * time.Millisecond
+		lease = 1500 * time.Millisecond
 	}
 	hub := VerifOpenHub(VerifConfig(h, lease))
 	ds, err := hub.Dsm.CreateDataset("d", nil)
@@ -154,7 +154,7 @@ func VerifC09FullSync(h *verifh.H) {
 			}
 			jobRunning = false
 		case 6: // a pending lease expires
-			if h.FireTimer("expire", 700*time.Millisecond) {
+			if h.FireTimer("expire", 2500*time.Millisecond) {
 				if m.active == 2 {
 					m.active, m.id, m.seen = 0, "", map[string]bool{}
 				}
